@@ -17,6 +17,12 @@ class RameyCalc(Contract):
     params = dict(krock=Real, rhorock=Real, cprock=Real, welldiam=Real, tv=NdOf("real"), utilfactor=Real, flowrate=Real,
                   cpwater=Real, Trock=Real, Tresoutput=NdOf("real"), averagegradient=Real, depth=Real)
     result = NdOf("real")
+    property_ids = ("C05",)     # verified, not only assumed at its call site
+
+    def requires(self, s):
+        # the time vector of a run has steps x lifetime + 1 >= 2 points; with a single point the real function raises
+        # IndexError (replayed), which is outside every accepted input
+        return {"at_least_two_time_points": Len(s.tv) >= 2, "one_temperature_per_time_point": Len(s.Tresoutput) == Len(s.tv)}
 
     def ensures(self, s, r):
         return {"length": Len(r) == Len(s.tv)}
@@ -35,9 +41,23 @@ class get_hydrostatic_pressure_kPa(Contract):
 @contract
 class WellPressureDrop(Contract):
     key = W + "WellPressureDrop"
-    params = dict(model=Const(None), Taverage=NdOf("real"), wellflowrate=Real, welldiam=Real, impedancemodelused=Bool,
+    params = dict(model=ObjAt("model"), Taverage=NdOf("real"), wellflowrate=Real, welldiam=Real, impedancemodelused=Bool,
                   depth=Real)
     result = None
+    property_ids = ("C15",)     # verified, not only assumed at its call sites
+    inline_callees = ("geophires_x/Reservoir.py::Reservoir.hydrostatic_pressure", U + "static_pressure_MPa")
+    uninterpreted = {U + "density_water_kg_per_m3": ("density_water_kg_per_m3", lambda args, r: [r > 0]),
+                     U + "viscosity_water_Pa_sec": ("viscosity_water_Pa_sec", lambda args, r: [r > 0])}
+    assumptions = ("WellPressureDrop: water density and viscosity are uninterpreted positive functions (A3)",)
+
+    def configs(self):
+        return [("impedance=True", {"impedancemodelused": True}), ("impedance=False", {"impedancemodelused": False})]
+
+    def snapshot(self, cfg):
+        return model_after_reading(1, 1, {"Reservoir Model": "4"})
+
+    def requires(self, s):
+        return {"nonempty": Len(s.Taverage) >= 1}
 
     def result_at_call(self, env):
         imp = env["impedancemodelused"]
@@ -59,6 +79,22 @@ class InjectionWellPressureDrop(Contract):
     params = dict(model=ObjAt("model"), Taverage=Real, wellflowrate=Real, welldiam=Real, impedancemodelused=Bool,
                   depth=Real, nprod=Int, ninj=Int, waterloss=Real)
     result = None
+    property_ids = ("C15",)     # verified, not only assumed at its call sites
+    inline_callees = WellPressureDrop.inline_callees
+    uninterpreted = WellPressureDrop.uninterpreted
+    assumptions = WellPressureDrop.assumptions
+
+    def configs(self):
+        return [("impedance=True", {"impedancemodelused": True}), ("impedance=False", {"impedancemodelused": False})]
+
+    def snapshot(self, cfg):
+        return model_after_reading(1, 1, {"Reservoir Model": "4"})
+
+    def heap(self, cfg):
+        return {"model.wellbores.ProducedTemperature.value": NdOf("real")}
+
+    def requires(self, s):
+        return {"nonempty": Len(s.model.wellbores.ProducedTemperature.value) >= 1}
 
     def result_at_call(self, env):
         imp = env["impedancemodelused"]
@@ -85,7 +121,9 @@ class WellBoresCalculate(Contract):
                    "series of equal length N = steps x lifetime >= 1, overpressure >= 100 %, depletion rate in (0, 100 x "
                    "steps], positive hydrostatic pressure; the hydraulic model and the pumping flag are enumerated",
                    "C05 drawdown-limit clause is stated for a positive initial production temperature and maximum "
-                   "drawdown in (0, 1]")
+                   "drawdown in (0, 1]",
+                   "ASSUMED contract on a dependency (not verified - exp and a fractional power): "
+                   "get_hydrostatic_pressure_kPa returns a positive pressure")
 
     def configs(self):
         out = []
@@ -125,6 +163,9 @@ class WellBoresCalculate(Contract):
         steps = (100.0 / wb.overpressure_depletion_rate.value) * tpy
         return {
             "series": And(L >= 1, tpy >= 1, N == L * tpy, Len(R.timevector.value) == N),
+            # RameyCalc reads framey[1]: with a one-point time vector (lifetime 1, one step per year) the real code
+            # raises IndexError (replayed; an input-domain hole outside the listed properties, noted in DESIGN.md)
+            "ramey_needs_two_time_points": Or(Not(wb.rameyoptionprod.value), N >= 2),
             "overpressure": And(wb.overpressure_percentage.value >= 100.0, wb.overpressure_depletion_rate.value > 0.0,
                                 steps >= 1.0),
             "wells": And(wb.nprod.value >= 1, wb.ninj.value >= 1),
